@@ -16,7 +16,8 @@
                      a uint64 counter; an explicit ID of 2^64-2 followed by two creates makes NextID wrap whatever
                      UpdateOnSync does (`generated_ids_are_user_ids_unbounded_refuted`).  For one event the same
                      condition is `room 0 g rows`.
-     singles_ok h    singleton IDs supplied by the registry lie in the singleton range (C10's subject) *)
+     singles_ok h    singleton IDs supplied by the registry lie in the singleton range (C10's subject)
+   and, for `stored_ids_distinct` only, `explicit_above_singletons` / `explicit_below` (see there; open finding F43) *)
 From Coq Require Import List NArith Lia.
 From V Require Import Lib.Check Gen.Params C04_RecordIDs.Model C04_RecordIDs.Proofs C04_RecordIDs.Link.
 Import ListNotations.
@@ -89,6 +90,49 @@ Theorem unique_per_ws :
   /\ w_log w' = w_log (run st_init h ws) ++ event_ids ev'.
 Proof. intros h ws ev w' ev' rep HB HS. exact (unique_proved _ _ h ws ev w' ev' rep HB HS (or_introl arg_pass_syncs)). Qed.
 
+(* the rows written by ONE accepted event carry pairwise distinct storage IDs - generated, explicit and singleton
+   IDs together (`event_ids ev'` = IDs of the stored creates and argument rows).  `explicit_above_singletons`: a
+   sync client does not pick IDs from the singleton band.  Written so that it is valid for the code with and
+   without the pre-pass of eventType.regenerateIDs that feeds every explicit ID to UpdateOnSync before the first
+   NextID (translator flag c04_sync_prepass, repair of F43): without it the explicit IDs of the event must lie below
+   the generator (`explicit_below`), with it nothing more is asked. *)
+Theorem stored_ids_distinct :
+  forall h ws ev w' ev' rep,
+  bounded (h ++ [IEvent ws ev]) -> singles_ok (h ++ [IEvent ws ev]) ->
+  explicit_above_singletons ev ->
+  c04_sync_prepass = true \/ explicit_below (w_next (run st_init h ws)) ev ->
+  step_event (run st_init h ws) ev = (w', Accepted ev' rep) ->
+  NoDup (event_ids ev').
+Proof. exact (stored_ids_distinct_hist_proved _ _). Qed.
+
+Theorem stored_ids_distinct_with_prepass :
+  c04_sync_prepass = true ->
+  forall h ws ev w' ev' rep,
+  bounded (h ++ [IEvent ws ev]) -> singles_ok (h ++ [IEvent ws ev]) -> explicit_above_singletons ev ->
+  step_event (run st_init h ws) ev = (w', Accepted ev' rep) ->
+  NoDup (event_ids ev').
+Proof. intros PP h ws ev w' ev' rep HB HS HX. exact (stored_ids_distinct_hist_proved _ _ h ws ev w' ev' rep HB HS HX (or_introl PP)). Qed.
+
+(* F43: without the pre-pass the hypothesis `explicit_below` cannot be dropped - a synced event that creates a raw
+   row and then a row with the explicit ID the generator is about to hand out stores both under that ID *)
+Theorem stored_ids_distinct_without_prepass_refuted :
+  c04_sync_prepass = false ->
+  exists h ws ev w' ev' rep, bounded (h ++ [IEvent ws ev]) /\ singles_ok (h ++ [IEvent ws ev])
+    /\ explicit_above_singletons ev
+    /\ step_event (run st_init h ws) ev = (w', Accepted ev' rep) /\ ~ NoDup (event_ids ev').
+Proof.
+  (* one script for both values of the flag: with the pre-pass in the source the premise is absurd *)
+  intros H. first
+  [ exfalso; vm_compute in H; discriminate H
+  | exists [], 1, (mkEv true [] [mkRow 1 0 [0; 0] 0; mkRow 200001 0 [1; 0] 0] []);
+    eexists; eexists; eexists;
+    split; [apply boundedb_sound; reflexivity|];
+    split; [apply singles_okb_sound; reflexivity|];
+    split; [apply explicit_above_singletonsb_sound; reflexivity|];
+    split; [vm_compute; reflexivity|];
+    intros ND; vm_compute in ND; inversion ND as [|? ? NI _]; apply NI; left; reflexivity ].
+Qed.
+
 (* recovery: the rebuilt generator is above every ID in the log of its workspace, never below FirstUserRecordID *)
 Theorem recovery_dominates_log :
   forall h ws, bounded h -> singles_ok h ->
@@ -111,11 +155,14 @@ Proof. intros g ev g' ev' rep Hv Hs Hg Hr. exact (substitution_proved _ _ g ev g
 
 (* ================= 4. the link to the trace checker ================= *)
 (* `model_trace st h` is the trace the model itself produces for h (inputs + its outputs as observations).
-   For every bounded history that trace passes the property oracle `satisfies` that bin/check evaluates on the
+   For every bounded history (explicit IDs above the singleton band; while the pre-pass of F43 is missing: no explicit
+   IDs at all, `explicit_free`) that trace passes the property oracle `satisfies` that bin/check evaluates on the
    traces observed from the Go code.  So on every observed trace on which the code agrees with the model
    (`agrees`), `satisfies` holds for the reasons the theorems above give. *)
 Theorem model_traces_satisfy_the_oracle :
-  forall h, bounded h -> singles_ok h -> satisfies (model_trace st_init h) = true.
+  forall h, bounded h -> singles_ok h -> explicit_apart h ->
+  c04_sync_prepass = true \/ explicit_free h ->
+  satisfies (model_trace st_init h) = true.
 Proof. intros h HB HS. exact (model_satisfies_proved _ _ h HB HS (or_introl arg_pass_syncs) (or_introl plans_shared)). Qed.
 
 (* ================= 5. why the repairs were needed (model variants selected by explicit flags) ================= *)
@@ -139,15 +186,20 @@ Theorem substitution_consistent_with_separate_plans :
   consistent_substitution ev ev' rep.
 Proof. intros au g ev g' ev' rep Hv Hs Hg Hr Hf. exact (substitution_proved au false g ev g' ev' rep Hv Hs Hg Hr (or_intror Hf)). Qed.
 
-(* F41: when the argument pass does not call UpdateOnSync, an explicit argument ID is handed out again *)
+(* F41: when the argument pass does not call UpdateOnSync, an explicit argument ID is handed out again
+   (the pre-pass of F43 also covers argument rows, so this witness exists only without it) *)
 Theorem unique_refuted_without_arg_sync :
+  c04_sync_prepass = false ->
   exists ps h ws ev w' ev' rep, bounded (h ++ [IEvent ws ev]) /\ singles_ok (h ++ [IEvent ws ev])
     /\ step_event_gen false ps (run_gen false ps st_init h ws) ev = (w', Accepted ev' rep)
     /\ exists x, In x (map snd rep) /\ In x (w_log (run_gen false ps st_init h ws)).
 Proof.
-  exists true, [IEvent 1 (mkEv true [mkRow 200001 0 [0; 0] 0] [] [])], 1, (mkEv false [] [mkRow 1 0 [0; 0] 0] []).
-  eexists. eexists. eexists. split; [apply boundedb_sound; reflexivity|]. split; [apply singles_okb_sound; reflexivity|].
-  split; [vm_compute; reflexivity|]. exists 200001. split; left; reflexivity.
+  intros H. first
+  [ exfalso; vm_compute in H; discriminate H
+  | exists true, [IEvent 1 (mkEv true [mkRow 200001 0 [0; 0] 0] [] [])], 1, (mkEv false [] [mkRow 1 0 [0; 0] 0] []);
+    eexists; eexists; eexists;
+    split; [apply boundedb_sound; reflexivity|]; split; [apply singles_okb_sound; reflexivity|];
+    split; [vm_compute; reflexivity|]; exists 200001; split; left; reflexivity ].
 Qed.
 Theorem unique_per_ws_without_arg_sync :
   forall ps h ws ev w' ev' rep,
@@ -191,8 +243,18 @@ Proof. vm_compute. repeat split. Qed.
 
 Example link_nonvacuous :
   let h := ex_history ++ [IEvent 1 ex_event] in
-  satisfies (model_trace st_init h) = true /\ agrees (model_trace st_init h) = true
+  explicit_apartb h = true /\ satisfies (model_trace st_init h) = true /\ agrees (model_trace st_init h) = true
   /\ length (model_trace st_init h) = 6%nat.
+Proof. vm_compute. repeat split. Qed.
+
+Example stored_ids_distinct_nonvacuous :
+  (* a synced event mixing raw and explicit IDs (below the generator, in the reserved range) after a history *)
+  let ev := mkEv true [mkRow 1 0 [0; 0] 0; mkRow 200002 1 [1; 0] 0] [mkRow 2 0 [200002; 70001] 0; mkRow 70001 0 [2; 0] 0; mkRow 3 0 [0; 0] 65538] [] in
+  boundedb (ex_history ++ [IEvent 2 ev]) = true /\ explicit_above_singletonsb ev = true
+  /\ explicit_belowb (w_next (run st_init ex_history 2)) ev = true
+  /\ w_next (run st_init ex_history 2) = 200004
+  /\ match snd (step_event (run st_init ex_history 2) ev) with Accepted ev' _ => event_ids ev' | Rejected => [] end
+     = [200005; 70001; 65538; 200004; 200002].
 Proof. vm_compute. repeat split. Qed.
 
 Example recovery_nonvacuous :
@@ -223,6 +285,9 @@ Print Assumptions generated_ids_are_user_ids.
 Print Assumptions generated_ids_are_user_ids_unbounded_refuted.
 Print Assumptions ids_strictly_increasing.
 Print Assumptions unique_per_ws.
+Print Assumptions stored_ids_distinct.
+Print Assumptions stored_ids_distinct_with_prepass.
+Print Assumptions stored_ids_distinct_without_prepass_refuted.
 Print Assumptions recovery_dominates_log.
 Print Assumptions substitution_consistent.
 Print Assumptions model_traces_satisfy_the_oracle.
